@@ -99,6 +99,7 @@ type streamRun struct {
 	ch      commit.Channel
 	specs   sync.Map // txid -> *TxnSpec (executed)
 	acks    sync.Map // txid -> ack seq
+	begins  sync.Map // txid -> seq taken when the body is about to return (its commits begin after that)
 	aborted sync.Map // txid -> true
 	active  bool
 	bad     atomic.Value // first logger-side problem
@@ -249,6 +250,7 @@ func streamWorkload(w *W, idx int, writers, txnsPer int, snapshots int) *streamR
 					if abort {
 						return errAbort
 					}
+					r.begins.Store(tx, r.tick()) // every block commit of this transaction begins after this point
 					return nil
 				})
 				if (err != nil) != abort {
@@ -417,14 +419,26 @@ func (res *streamResult) oracleSnapshots(w *W) (string, bool) {
 		}
 		window := map[uint32][2]int{}
 		for b := uint32(0); b < streamBlocks; b++ {
-			A, B := 0, 0
+			// A: commits acknowledged before Snapshot was called must be in. B: a commit whose application
+			// began after Snapshot returned must be out, and with it everything applied after it. "Began"
+			// is bounded from below by the moment the transaction body returned (the logger's arrival
+			// stamp is NOT usable here: the library appends to the snapshot recorder before it calls the
+			// user's logger, so a commit can be in the tail although it reaches the logger after Snapshot
+			// returned - an earlier version of this oracle raised false alarms on a loaded machine).
+			A, B := 0, len(byBlock[b])
 			for i, cm := range byBlock[b] {
 				if ack, ok := res.run.acks.Load(cm.Tx); ok && ack.(int64) < s.call {
 					A = i + 1
 				}
-				if cm.Seq < s.ret {
-					B = i + 1
+			}
+			for i, cm := range byBlock[b] {
+				if bg, ok := res.run.begins.Load(cm.Tx); ok && bg.(int64) > s.ret {
+					B = i
+					break
 				}
+			}
+			if B < A {
+				B = A
 			}
 			window[b] = [2]int{A, B}
 		}
